@@ -60,7 +60,7 @@ func rawExprs(con *Contract, key string) []ast.Expr {
 // havocPoly gives fresh ghost attributes to a polynomial (or to both halves of a ringqp.Poly).
 func (e *bEngine) havocPoly(st *bState, v bVal, what string) {
 	if id, ok := e.polyID(st, v); ok {
-		for _, g := range []string{"val", "mexp", "ntt"} {
+		for _, g := range []string{"val", "mexp", "ntt", "uni"} {
 			arr := e.ghostArr(st, g)
 			st.ghost[g] = Store(arr, ConstI(int64(id)), Var(e.freshName(g), SInt))
 		}
@@ -107,6 +107,14 @@ func (e *bEngine) applyContract(st *bState, con *Contract, callee *ssa.Function,
 		e.oblige(st, "requires", fmt.Sprintf("%s.%d", short, i), g, at)
 		st.assume(g)
 	}
+	// wlog <cond> given <guard>: the callee may choose the interpretation of a uniform element;
+	// the caller only owes the guard
+	for i, w := range con.Raw["wlog"] {
+		_, guard := parseWlog(w, con.File)
+		g := e.env(st, st, bind, nil, con, pkg).Term(guard)
+		e.oblige(st, "requires", fmt.Sprintf("%s.wlog%d", short, i), g, at)
+		st.assume(g)
+	}
 	pre := shallowOld(st)
 	for _, x := range con.Assigns {
 		e.havocPoly(st, e.env(st, st, bind, nil, con, pkg).Eval(x), short)
@@ -139,6 +147,19 @@ func (e *bEngine) applyContract(st *bState, con *Contract, callee *ssa.Function,
 		st.assume(g)
 	}
 	return res
+}
+
+func parseWlog(s, where string) (cond, guard ast.Expr) {
+	i := strings.Index(s, " given ")
+	if i < 0 {
+		panic(verr("%s: wlog expects: <cond> given <guard>", where))
+	}
+	c, err1 := parser.ParseExpr(strings.TrimSpace(s[:i]))
+	g, err2 := parser.ParseExpr(strings.TrimSpace(s[i+7:]))
+	if err1 != nil || err2 != nil {
+		panic(verr("%s: bad wlog clause %q", where, s))
+	}
+	return c, g
 }
 
 // draw <dist expr> <poly expr>: the polynomial receives the next fresh value of the distribution.
@@ -666,6 +687,10 @@ func (e *bEngine) doCall(st *bState, fr *bFrame, ci ssa.CallInstruction) {
 		setRes(e.applyContract(st, con, callee, args, at))
 		return
 	}
+	if callee.Pkg != nil && (callee.Pkg.Pkg.Path() == "fmt" && callee.Name() == "Errorf" || callee.Pkg.Pkg.Path() == "errors" && callee.Name() == "New") {
+		setRes(&bIface{val: bOpaque{name: "error"}})
+		return
+	}
 	if !isModuleFunc(callee) || len(callee.Blocks) == 0 {
 		// outside the module: assumed not to touch polynomial storage
 		setRes(freshRes(callee.Name()))
@@ -700,7 +725,7 @@ func frameKeyOrName(f *ssa.Function) string {
 // polynomial storage: every ghost attribute is forgotten.
 func (e *bEngine) unknownCall(st *bState, what, at string) {
 	e.note("unknown callee (" + what + "): all ghost state havocked")
-	for _, g := range []string{"val", "mexp", "ntt", "draws"} {
+	for _, g := range []string{"val", "mexp", "ntt", "uni", "draws"} {
 		st.ghost[g] = Var(e.freshName("G."+g), SArr)
 	}
 }
@@ -807,7 +832,11 @@ func (e *bEngine) resolveDyn(fn *ssa.Function, spec string) types.Type {
 func VerifyAbstract(prog *Program, fp *FrameProg, key string) *bResult {
 	con := prog.AContracts[key]
 	res := &bResult{Key: key, Name: shortPkg(key), Ended: map[string]int{}}
-	fns := fp.Find(key)
+	fkey := key
+	if i := strings.Index(fkey, "#"); i >= 0 {
+		fkey = fkey[:i]
+	}
+	fns := fp.Find(fkey)
 	if len(fns) == 0 {
 		res.Err = "contract-target: function not found in the source tree (renamed or removed?)"
 		return res
@@ -897,6 +926,66 @@ func (e *bEngine) verify(caseSpec string) {
 		if part == "" {
 			continue
 		}
+		if strings.HasPrefix(part, "set ") {
+			// set <a.b.f> = <expr|nil> : fixes a field of a symbolic input (invariants such as
+			// pt.Value aliasing pt.Element.Value[0], or a nil RingP)
+			kv := strings.SplitN(strings.TrimPrefix(part, "set "), "=", 2)
+			if len(kv) != 2 {
+				panic(verr("%s: set expects: set lvalue = expr", con.File))
+			}
+			lx, err1 := parser.ParseExpr(strings.TrimSpace(kv[0]))
+			rx, err2 := parser.ParseExpr(strings.TrimSpace(kv[1]))
+			sel, isSel := lx.(*ast.SelectorExpr)
+			if err1 != nil || err2 != nil || !isSel {
+				panic(verr("%s: bad set clause %q", con.File, part))
+			}
+			env := e.env(st, st, bind, nil, con, pkg)
+			parent := env.Eval(sel.X)
+			for d := 0; d < 6; d++ {
+				if p, ok := parent.(bPtr); ok && p.obj != 0 {
+					parent = e.loadAt(st, p)
+					continue
+				}
+				if iv, ok := parent.(*bIface); ok && iv.val != nil {
+					parent = iv.val
+					continue
+				}
+				break
+			}
+			sv, ok := parent.(*bStruct)
+			if !ok {
+				panic(verr("%s: set: %s is not a struct", con.File, exprString(sel.X)))
+			}
+			// descend through embedded fields to the struct that declares the field
+			for d := 0; d < 6 && fieldType(sv.typ, sel.Sel.Name) == nil; d++ {
+				stt, _ := sv.typ.Underlying().(*types.Struct)
+				found := false
+				for i := 0; stt != nil && i < stt.NumFields(); i++ {
+					f := stt.Field(i)
+					if f.Embedded() && hasField(deref(f.Type()), sel.Sel.Name) {
+						child := e.field(st, sv, f.Name())
+						if p, ok := child.(bPtr); ok {
+							child = e.loadAt(st, p)
+						}
+						if cs, ok := child.(*bStruct); ok {
+							sv, found = cs, true
+						}
+						break
+					}
+				}
+				if !found {
+					panic(verr("%s: set: no field %s", con.File, sel.Sel.Name))
+				}
+			}
+			var v bVal
+			if id, ok := rx.(*ast.Ident); ok && id.Name == "nil" {
+				v = e.zeroVal(fieldType(sv.typ, sel.Sel.Name))
+			} else {
+				v = cloneVal(env.Eval(rx))
+			}
+			sv.f[sel.Sel.Name] = v
+			continue
+		}
 		if strings.HasPrefix(part, "alias ") {
 			kv := strings.SplitN(strings.TrimPrefix(part, "alias "), "=", 2)
 			if len(kv) != 2 {
@@ -929,6 +1018,12 @@ func (e *bEngine) verify(caseSpec string) {
 	}
 	for _, r := range con.Requires {
 		st.assume(e.env(st, st, bind, nil, con, pkg).Term(r.Expr))
+	}
+	for _, w := range con.Raw["wlog"] {
+		cond, guard := parseWlog(w, con.File)
+		st.assume(e.env(st, st, bind, nil, con, pkg).Term(guard))
+		st.assume(e.env(st, st, bind, nil, con, pkg).Term(cond))
+		e.note("wlog: the interpretation (Montgomery exponent) of a uniform element is chosen by the callee")
 	}
 	// vacuity
 	{
